@@ -127,6 +127,12 @@ def rule_reader(ctx):
         cs = Q.canon_conds(P, T.dom_conds(b, S, rb))
         if any(c[0] == "cmp" and c[1] == "Gt" and c[4] and _is_needed(c[2]) for c in cs):
             resets = [rblk for rblk, rt in Q.calls(b, RD + "::reset") if C.dominates(b, rblk, rb)]
+            if not resets:
+                # reset() written out: the buffered bytes are cleared on this path (`self.buffer.clear()` / truncate(0) / drain(..))
+                for cblk, ct in Q.calls(b, ["::clear", "::truncate", "::drain"]):
+                    ca = Q.call_args(b, S, cblk, ct)
+                    if C.dominates(b, cblk, rb) and any(x[0] == "field" and x[2] == "buffer" for x in T.walk(ca[0])):
+                        resets.append(cblk)
             big = (term[0] == "agg" and term[3] == "Err") and bool(resets)
     ctx.check(big, "R4", "add_bytes:oversize-path", "over-size record: buffer reset and Err returned", "over-size record path does not clear the buffer and return Err", ctx.loc(b))
     # R2 once
